@@ -28,6 +28,8 @@ WalByteCases ==
       e \in 1 .. NEntries, v \in MetaLenValues}
   \cup {[file |-> "wal", kind |-> k, region |-> "body", entry |-> e, pos |-> p, val |-> 0] :
       k \in {"flip", "zero", "ff"}, e \in {1, NEntries}, p \in BodyBytes}
+  \cup {[file |-> "wal", kind |-> k, region |-> "body8", entry |-> e, pos |-> p, val |-> 0] :       \* a whole 8-byte field
+      k \in {"zero", "ff"}, e \in {1, NEntries}, p \in BodyBytes}
   \cup {[file |-> "wal", kind |-> k, region |-> "payload", entry |-> e, pos |-> p, val |-> 0] :
       k \in {"flip", "zero"}, e \in 1 .. NEntries, p \in {0, 1}}
   \cup {[file |-> "wal", kind |-> "zero_header", region |-> "header", entry |-> e, pos |-> 0, val |-> 0] :
